@@ -289,6 +289,39 @@ def per_instance(ctx) -> None:
     ctx.check(not missing, 'R-PERINSTANCE', ex.ref, f'every attribute the executor mutates is bound per instance in __init__ (not bound there: {missing}; examined {n} class-level containers in the serving scope)', key='Executor:init-bound', loc=ex.module.relpath)
 
 
+REQUEST_PATH = (f'{DISPATCH}:Wrapper.extract', f'{DISPATCH}:Wrapper.respond', f'{DISPATCH}:Wrapper._dispatch', f'{DISPATCH}:Wrapper._pack', f'{SERVICE}:Engine.apply')
+
+
+def request_state(ctx) -> None:
+    """Whatever belongs to one request lives in that request's own locals: the coroutines and helpers on the request path
+    never (re)bind an attribute of the shared wrapper/engine ("current application", "last descriptor", a selection cache) -
+    between an ``await`` and its resumption another request would read or overwrite it.  Each request resolves its own
+    descriptor through _get_descriptor(application) and its own instance through descriptor.select(...)."""
+    prog = ctx.prog
+    n = 0
+    for ref in REQUEST_PATH:
+        fn = prog.func(ref)
+        n += 1
+        first = fn.param_names[0] if fn.param_names else None
+        stores = []
+        for x in core.walk_local(fn.node):
+            if isinstance(x, (ast.Assign, ast.AugAssign, ast.AnnAssign)):
+                for t in (x.targets if isinstance(x, ast.Assign) else [x.target]):
+                    base = t
+                    while isinstance(base, ast.Subscript):
+                        base = base.value
+                    if isinstance(base, ast.Attribute) and isinstance(base.value, ast.Name) and base.value.id in ('self', 'cls'):
+                        stores.append(x)
+        ctx.check(not stores, 'C16.request-state', fn, f'{fn.qual} keeps its request in locals (no write to shared `self` state: {[core.src(x)[:50] for x in stores]})', stores[0] if stores else fn.node, key=f'{fn.qual}:no-shared-writes')
+    ctx.floor('C16.request-path', n, 5)
+    ex = prog.func(f'{DISPATCH}:Wrapper.extract')
+    app = ex.param_names[1]
+    shared.stmt_under(ctx, 'C16.request-state', ex, f'descriptor = await self._threads(self._get_descriptor, {app})', [], 'every request resolves the descriptor of its own application', 'extract:descriptor', inlined=False, siblings=False)
+    dp = prog.func(f'{DISPATCH}:Wrapper._dispatch')
+    sel = [c for c in core.calls_in(dp.node) if isinstance(c.func, ast.Attribute) and c.func.attr == 'select']
+    ctx.check(len(sel) == 1 and core.src(sel[0].func.value) == 'descriptor' and not cfg.cguards(core.enclosing_stmt(sel[0]), dp.node), 'C16.request-state', dp, 'every request asks its own descriptor to select the model instance (no selection reused across requests)', sel[0] if sel else dp.node, key='dispatch:select')
+
+
 def descriptor_cache(ctx) -> None:
     """Every request is served by the descriptor of *its own* application: the cache is read and written under the key
     `application` only, an unknown application is refused (MissingError) after one refresh of the inventory listing, a known
@@ -308,6 +341,7 @@ def descriptor_cache(ctx) -> None:
 
 
 def run(ctx) -> None:
+    request_state(ctx)
     descriptor_cache(ctx)
     per_instance(ctx)
     worker_loop(ctx)
